@@ -56,6 +56,20 @@ def generate(rng, tier):
                     tail = [(kind, txt)] + ([S.random_call(rng)] if rng.random() < 0.5 else [])
                     ev = list(events) + S.nominal(("query", "QS"), rng)
                     cases.append({"calls": list(calls) + tail, "events": ev, "family": "degenerate-text:%s/%s/%r" % (name, kind, txt)})
+    # the same request (or the request that reads back what an earlier one wrote) succeeded on this object before the error was recorded:
+    # what it returned then must not be handed out again afterwards - the failure value is returned and nothing is written
+    latches = [("timeout", ("command", "EM,1,1"), ["E"] + ["E"] * 27), ("errline", ("command", "SP,1"), ["E", ("L", "SP,Err: bad")]),
+               ("usb-read", ("query", "QS"), ["E", "F"]), ("unexpected", ("query", "QS"), ["E", ("L", "ZZ,1,2")])]
+    pairs = [(("var_write", 42, 7), ("var_read", 7)), (("var_write32", -2, 7), ("var_read32", 7)), (("var_write32", 16843009, 4), ("var_read", 5)),
+             (("write_nick", "Bot"), ("query_nick",)), (("motors_on", 1, 1), ("motors_query",)), (("var_read", 3), ("var_read", 3))]
+    for _ in range(reps):
+        todo = [(w, r) for w, r in pairs if w[0] in S.ALL_REQUESTS and r[0] in S.ALL_REQUESTS] + [(c0, c0) for c0 in (S.sample_call(m, rng) for m in S.ALL_REQUESTS)]
+        for w, r in todo:
+            lname, lcall, lev = rng.choice(latches)
+            mid = [("disconnect",), ("connect", S.GOOD_PORTS, None)] if rng.random() < 0.15 else []
+            calls = [("connect", S.GOOD_PORTS, None), w, lcall] + mid + [r]
+            ev = S.connect_script() + S.nominal(w, rng) + lev + (S.connect_script() if mid else []) + S.nominal(r, rng)
+            cases.append({"calls": calls, "events": ev, "family": "succeeded-before-the-error:%s/%s->%s" % (lname, w[0], r[0])})
     # a second (third) connect on an object that already holds an error: every handshake variant
     handshakes = [("good", S.connect_script()), ("old-firmware", ["E", "E", ("L", "EBBv13_and_above EB Firmware Version 2.8.1")]),
                   ("older-multi-digit", ["E", "E", ("L", "EBBv13_and_above EB Firmware Version 2.10.12")]),
